@@ -319,6 +319,12 @@ class _Delegate(PairingDelegate):
 
     async def display_number(self, number, digits):
         self.shared['number'] = number
+        if self.shared.get('modal'):
+            # a modal dialog: the number stays on screen until the pairing is over
+            for _ in range(400):
+                if self.shared.get('over'):
+                    break
+                await asyncio.sleep(0.05)
 
     async def get_number(self):
         if self.answer != 0:
@@ -354,18 +360,18 @@ def _two_devices(loop):
     return devs, t.result()
 
 
-def _pairing_run(io_a, io_b, sc_a, sc_b, mitm_a, mitm_b, bond_a, bond_b, ans_a, ans_b, kd=0):
+def _pairing_run(io_a, io_b, sc_a, sc_b, mitm_a, mitm_b, bond_a, bond_b, ans_a, ans_b, kd=0, modal=False):
     """returns a dict describing how the pairing ended on both sides"""
     detenv.reset()
     with detloop.running() as loop:
         devs, conn = _two_devices(loop)
-        shared = {}
+        shared = {'modal': modal}
         devs[0].pairing_config_factory = lambda c: PairingConfig(sc=sc_a, mitm=mitm_a, bonding=bond_a, delegate=_Delegate(_IOS[io_a], ans_a, shared, _KDS[kd]))
         devs[1].pairing_config_factory = lambda c: PairingConfig(sc=sc_b, mitm=mitm_b, bonding=bond_b, delegate=_Delegate(_IOS[io_b], ans_b, shared))
         peer_conn = list(devs[1].connections.values())[0]
         ends = {'a': [], 'b': []}
-        conn.on('pairing', lambda keys: ends['a'].append('ok'))
-        conn.on('pairing_failure', lambda reason: ends['a'].append('fail'))
+        conn.on('pairing', lambda keys: (ends['a'].append('ok'), shared.__setitem__('over', True)))
+        conn.on('pairing_failure', lambda reason: (ends['a'].append('fail'), shared.__setitem__('over', True)))
         peer_conn.on('pairing', lambda keys: ends['b'].append('ok'))
         peer_conn.on('pairing_failure', lambda reason: ends['b'].append('fail'))
         t = loop.create_task(conn.pair())
@@ -424,6 +430,19 @@ def system_pairing(io_b: int, ans: int, who: int, io_a: int, sc_a: int, sc_b: in
         if 'ok' in ends['b'] or 'ok' in ends['a']:
             return False
         return r['ka'] is None and r['kb'] is None
+
+
+@harness(pre=['0 <= io_a <= 4 and 0 <= io_b <= 4 and 0 <= sc <= 1'], family='system-pairing', kernels=K + ('bumble.smp.Session.display_passkey', 'bumble.smp.Session.prompt_user_for_number'), timeout=(240, 900), twin=True,
+         bounds='two complete stacks, MITM requested, every IO capability pair, legacy or Secure Connections, and a display delegate that behaves like a modal dialog (display_number does not return until the pairing is over): pairing still ends (completes with an encrypted link on both sides, or fails on both), it never waits for the dialog')
+def pairing_does_not_wait_for_the_display(io_a: int, io_b: int, sc: int) -> bool:
+    io_a, io_b, sc = C(io_a, 0, 4), C(io_b, 0, 4), C(sc, 0, 1)
+    with untraced():
+        r = _pairing_run(io_a, io_b, bool(sc), bool(sc), True, True, True, True, 0, 0, modal=True)
+        if not r['done']:
+            return False
+        if r['exc'] is None:
+            return r['ends']['b'] == ['ok'] and r['enc_a'] and r['enc_b']
+        return 'ok' not in r['ends']['a'] and 'ok' not in r['ends']['b']
 
 
 @harness(pre=['0 <= io_b <= 4 and 1 <= kd <= 3'], family='system-pairing', kernels=K + ('bumble.smp.Session.distribute_keys', 'bumble.smp.Session.check_key_distribution'), timeout=(240, 900), twin=True,
